@@ -4,11 +4,11 @@
 //
 //   new <floats> <rows> <cols> | row | add <hex> <col> | dump | replicate | replicate3 n r c
 //   transpose | graph | connected | levels <r> | ppn <start> | rcm | envelope
-//   choldec <tolhex> | solve <hex..> | lower a b <hex..> | diagonal a b <hex..> | upper a b <hex..>
+//   choldec <tolhex> | choldec0 | solve <hex..> | lower a b <hex..> | diagonal a b <hex..> | upper a b <hex..>
 //   inverse | elements env|inv
 //
-// A call that would be undefined behaviour in the C++ (no capacity left, connected() on an
-// empty graph) is answered `refused` / `ub` without calling the library.
+// A call that would be undefined behaviour in the C++ (no capacity left, transposing or
+// graphing a matrix that is not completely built) is answered `refused` without calling the library.
 #include <cstdlib>
 #include <iostream>
 #include <memory>
@@ -26,6 +26,16 @@ typedef SparseMatrix<double, int>      SM;
 typedef SparseMatrixGraph<double, int> Graph;
 typedef ReverseCuthillMcKee<int>       RCM;
 typedef Envelope<double, int>          Env;
+
+// verification probe (friend of Envelope when compiled with -DGAMA_VERIF): raw row pointers
+struct GamaVerifProbe {
+  static std::vector<long> xenv(const Env& e) {
+    std::vector<long> v;
+    if (e.dim_ == 0) return v;
+    for (int i = 1; i <= e.dim_ + 1; i++) v.push_back(long(e.xenv_[i] - e.env_));
+    return v;
+  }
+};
 
 struct Sess {
   std::unique_ptr<SM> A;
@@ -77,6 +87,8 @@ static void dump_env(const char* tag, const Env& E)
 {
   std::cout << tag << " " << E.dim() << " defect " << E.defect() << " width";
   for (int i = 1; i <= E.dim(); i++) std::cout << " " << (E.end(i) - E.begin(i));
+  std::cout << " xenv";
+  for (long o : GamaVerifProbe::xenv(E)) std::cout << " " << o;
   std::cout << " diag";
   for (int i = 1; i <= E.dim(); i++) std::cout << " " << vp::hex(E.diagonal(i));
   std::cout << " env";
@@ -158,8 +170,7 @@ int main()
         for (Graph::const_iterator b = g.begin(i), e = g.end(i); b != e; ++b) std::cout << " " << *b;
       std::cout << "\n";
     } else if (op == "connected" && t.size() == 1 && s.g) {
-      if (s.g->nodes() == 0) std::cout << "ub\n";
-      else std::cout << "flag " << (s.g->connected() ? 1 : 0) << "\n";
+      std::cout << "flag " << (s.g->connected() ? 1 : 0) << "\n";
     } else if (op == "levels" && t.size() == 2 && s.g) {
       RootedLevelStructure<int> rls;
       rls.root(std::atoi(t[1].c_str()), s.g.get());
@@ -182,9 +193,12 @@ int main()
       for (int i = 1; i <= s.o->nodes(); i++) std::cout << " " << s.o->invp(i);
       std::cout << "\n";
     } else if (op == "envelope" && t.size() == 1 && s.A && s.g && s.o) {
-      if (!s.built() || !s.nodup_rows()) { std::cout << "refused\n"; continue; }
+      if (!s.built()) { std::cout << "refused\n"; continue; }
       s.E.reset(new Env(s.A.get(), s.g.get(), s.o.get()));
       dump_env("env", *s.E);
+    } else if (op == "choldec0" && t.size() == 1 && s.E) {
+      s.E->cholDec();                            // default argument: tol = sqrt(epsilon)
+      dump_env("chol", *s.E);
     } else if (op == "choldec" && t.size() == 2 && s.E) {
       s.E->cholDec(vp::unhex(t[1]));
       dump_env("chol", *s.E);
